@@ -12,7 +12,7 @@ import ast
 from ..normalize import resolve_helper
 import re
 
-from ..core import AnalysisError, norm, loc, walk_no_nested
+from ..core import AnalysisError, norm, loc, walk_no_nested, call_name
 from ..strinterp import Interp, S, Marker, Atom, Opaque
 from ..cypher import check_statement
 
@@ -86,11 +86,25 @@ def classify(origin):
     return None, origin
 
 
+def session_names(fn):
+    """Locals bound to a driver session: ``with <x>.session() as NAME`` or ``NAME = <x>.session()``."""
+    names = set()
+    for n in walk_no_nested(fn):
+        if isinstance(n, (ast.With, ast.AsyncWith)):
+            for it in n.items:
+                if isinstance(it.optional_vars, ast.Name) and isinstance(it.context_expr, ast.Call) and call_name(it.context_expr) == 'session':
+                    names.add(it.optional_vars.id)
+        elif isinstance(n, ast.Assign) and isinstance(n.value, ast.Call) and call_name(n.value) == 'session':
+            names.update(t.id for t in n.targets if isinstance(t, ast.Name))
+    return names
+
+
 def find_run_calls(fn):
     out = []
+    sess = session_names(fn)
     for n in walk_no_nested(fn):
         if isinstance(n, ast.Call) and isinstance(n.func, ast.Attribute) and n.func.attr == 'run' \
-                and isinstance(n.func.value, ast.Name) and n.func.value.id == 'session':
+                and isinstance(n.func.value, ast.Name) and n.func.value.id in sess:
             out.append(n)
     return out
 
